@@ -7,6 +7,7 @@ import numpy as np
 
 from .. import assume as A
 from .. import spec
+from ..report import FAILED, PROVED, ob
 from ..env import calculus, curves, heavy
 from ..symx import con
 from ..symx import harness as H
@@ -119,11 +120,72 @@ def task_deriv(p, cells, variant, rational):
 task_deriv.contract_fn = "calculus.Derivate.curve"
 
 
+# --------------------------------------------------------------------------------------
+# engine B: the derivative of a curve does not depend on which curves were derived before in the same process
+# --------------------------------------------------------------------------------------
+ORDER_FAMILIES = {
+    # same degree, same number of control points, same distinct knots - the multiplicities are distributed differently
+    "p3": (3, [F(-1), F(1, 2), F(2), F(5)], [(2, 1), (1, 2)]),
+    "p2": (2, [F(0), F(1), F(3), F(4)], [(2, 1), (1, 2)]),
+    "p1": (1, [F(0), F(1), F(2), F(5, 2), F(3)], [(1, 2, 1), (2, 1, 1), (1, 1, 2)]),
+}
+
+
+def _deriv_ok(U, p, P):
+    n = len(U) - p - 1
+    D = calculus.Derivate(curves.Curve(list(U), list(P)))
+    cuts = sorted(set(U))
+    for a, b in zip(cuts[:-1], cuts[1:]):
+        for s_ in (1, 2, 3):
+            u = a + (b - a) * F(s_, 4)
+            k = spec.spec_span(list(U), p, u)
+            N = spec.cdb(list(U), p, k, spec.Poly.X())[:n]
+            exp = sum((N[i] * P[i] for i in range(n)), spec.Poly()).deriv()(u)
+            got = D(u)
+            if abs(F(got) - exp) > F(1, 10 ** 7) * max(1, abs(exp)):       # the difference factors are float64 in the library (A1): same tolerance as the replay
+                return "D(%s) = %s, exact derivative %s" % (u, got, exp)
+    return None
+
+
+def task_order(name):
+    fn = "calculus.Derivate.curve"
+    p, ks, patterns = ORDER_FAMILIES[name]
+    vecs = []
+    for m in patterns:
+        U = [ks[0]] * (p + 1)
+        for x, mm in zip(ks[1:-1], m):
+            U += [x] * mm
+        vecs.append(U + [ks[-1]] * (p + 1))
+    bad, cases = [], 0
+    import itertools
+    for order in itertools.permutations(range(len(vecs))):
+        # each order on its own translate of the knot values, so that an order cannot profit from what an earlier one left behind
+        sh = 11 * cases
+        for idx in order:
+            U = [x + sh for x in vecs[idx]]
+            n = len(U) - p - 1
+            msg = _deriv_ok(U, p, [F((-1) ** i * (i * i + 2), i + 1) for i in range(n)])
+            if msg:
+                bad.append(("order %s, multiplicities %s" % (list(order), patterns[idx]), msg))
+                break
+        cases += 1
+    if bad:
+        return [ob("%s:history-independent[%s]" % (fn, name), fn, FAILED, "B", "concrete", 0.0,
+                   "%d of %d orders give a wrong derivative; first: %s: %s" % (len(bad), cases, bad[0][0], bad[0][1]), dict(kind="c09.order", family=name))]
+    return [ob("%s:history-independent[%s]" % (fn, name), fn, PROVED, "B", "concrete", 0.0,
+               "%d orders of %d curves with equal degree / npts / distinct knots and different multiplicity patterns: every derivative exact" % (cases, len(vecs))),
+            {"_stats": dict(cases=cases)}]
+
+
+task_order.contract_fn = "calculus.Derivate.curve"
+
+
 def tasks(tier, seed):
     from ..pyvc.driver import verify
     from ..contracts import misc
     ts = [(verify, (misc.DIFFERENCE_VECTOR, "heavy", "Calculus.difference_vector", None)),
           (verify, (misc.DIFFERENCE_MATRIX, "heavy", "Calculus.difference_matrix", None))]
+    ts += [(task_order, (name,)) for name in ORDER_FAMILIES]
     for p, cells in shapes(tier):
         for variant in ((0, 1) if tier == "quick" else (0, 1, 2)):
             ts.append((task_deriv, (p, cells, variant, False)))
@@ -134,6 +196,9 @@ def tasks(tier, seed):
 
 def replay(o):
     w = o["witness"]
+    if w.get("kind") == "c09.order":
+        r = task_order(w["family"])[0]
+        return r["status"] == FAILED, "exact derivative in every order", r["detail"]
     p, cells, variant = w["p"], tuple(w["cells"]), w["variant"]
     U = vec(p, cells, variant)
     n = len(U) - p - 1
